@@ -35,11 +35,11 @@ func Registry() []*Spec {
 	add(Spec{Property: "C03", Name: "VerifC03_Templates", Pkg: "asm",
 		Quick: map[string]int{}, Thorough: map[string]int{},
 		Covers: []string{"valid", "invalid"}, UnitDepth: 3,
-		Note: "15 JSON skeletons (7..17 bytes: strings, keys, escapes, literals, numbers with fraction and exponent, nesting) with free symbolic bytes at the marked places, delivered whole / byte by byte / split at every position: all JSON front-ends vs oj.Parse, and (on every such input, JSON or SEN-only) sen.Parse vs sen.ParseReader vs sen.Tokenizer{OnlyOne}.Parse/.Load + Builder"})
+		Note: "24 JSON skeletons (7..17 bytes: strings, keys, escapes, literals, numbers with fraction and exponent, nesting) with free symbolic bytes at the marked places, delivered whole / byte by byte / split at every position: all JSON front-ends vs oj.Parse, and (on every such input, JSON or SEN-only) sen.Parse vs sen.ParseReader vs sen.Tokenizer{OnlyOne}.Parse/.Load + Builder"})
 	add(Spec{Property: "C01", Name: "VerifC03_Templates", Pkg: "asm",
 		Quick: map[string]int{}, Thorough: map[string]int{},
 		Covers: []string{"valid", "invalid"}, UnitDepth: 3, Asserts: []string{"accept-iff-valid"},
-		Note: "the 15 JSON skeletons of the C03 templates harness (7..17 bytes with free symbolic bytes in strings, keys, escapes, \\u hex digits, literals, numbers with fraction and exponent, nested values), whole and chunked: every strict front-end accepts iff the RFC 8259 reference does"})
+		Note: "the 24 JSON skeletons of the C03 templates harness (7..17 bytes with free symbolic bytes in strings, keys, escapes, \\u hex digits, literals, numbers with fraction and exponent, nested values), whole and chunked: every strict front-end accepts iff the RFC 8259 reference does"})
 	add(Spec{Property: "C09", Name: "VerifC03_Templates", Pkg: "asm",
 		Quick: map[string]int{}, Thorough: map[string]int{},
 		Covers: []string{"valid", "invalid"}, UnitDepth: 3, Asserts: []string{"pos"},
@@ -91,7 +91,7 @@ func Registry() []*Spec {
 	add(Spec{Property: "C19", Name: "VerifC19_Diff", Pkg: "alt",
 		Quick: map[string]int{"MAXIGN": 1, "LEAFKINDS": 3}, Thorough: map[string]int{"MAXIGN": 2, "LEAFKINDS": 4},
 		Covers: []string{"equal", "different"}, UnitDepth: 4,
-		Note: "alt.Diff/Compare on 22 shape pairs (depth <= 2, <= 3 leaves, symbolic a/b keys) with symbolic small leaves of LEAFKINDS kinds (int64, integral float64, nil, int; VerifC19_Match thorough also non-integral float, string) and 0..MAXIGN ignore paths from a menu of 9 (indexes, keys, wildcards, 2-element paths); the same trees held as gen nodes (alt.Generify) give the same Diff paths and the same Compare verdict"})
+		Note: "alt.Diff/Compare on 22 shape pairs (depth <= 2, <= 3 leaves, symbolic a/b keys) with symbolic small leaves of LEAFKINDS kinds (int64, integral float64, nil, int; VerifC19_Match thorough also non-integral float, string); the first leaf of each tree may also be a uint64, small or 2^63 and 0..MAXIGN ignore paths from a menu of 9 (indexes, keys, wildcards, 2-element paths); the same trees held as gen nodes (alt.Generify) give the same Diff paths and the same Compare verdict"})
 	add(Spec{Property: "C19", Name: "VerifC19_Match", Pkg: "alt",
 		Quick: map[string]int{"LEAFKINDS": 4}, Thorough: map[string]int{"LEAFKINDS": 6},
 		Covers: []string{"match", "nomatch"}, UnitDepth: 3,
@@ -129,7 +129,7 @@ func Registry() []*Spec {
 	add(Spec{Property: "C10", Name: "VerifC10_String", Pkg: "asm",
 		Quick: map[string]int{"N": 2}, Thorough: map[string]int{"N": 4},
 		Covers: []string{"done"}, UnitDepth: 4,
-		Note: "every string of <= N bytes as top-level value, array element, object value and object key: sen.Parser.Parse(sen.Writer.SEN(v)) gives back v (invalid UTF-8 -> U+FFFD), HTMLUnsafe on and off"})
+		Note: "every string of <= N bytes, and 7 multi-byte UTF-8 templates (2, 3 and 4 byte sequences with a free continuation byte, alone and between letters: covers U+2028/U+2029, U+FFFx, emoji), as top-level value, array element, object value and object key: sen.Parser.Parse(sen.Writer.SEN(v)) gives back v (invalid UTF-8 -> U+FFFD), HTMLUnsafe on and off"})
 	add(Spec{Property: "C10", Name: "VerifC10_Tree", Pkg: "asm",
 		Quick: map[string]int{}, Thorough: map[string]int{"SLEN": 2, "KLEN": 2, "OMIT": 1, "BIGINT": 1},
 		Covers: []string{"done"}, UnitDepth: 5,
